@@ -95,6 +95,13 @@ theorem encrypt_refuses_empty_wrapped_key (c : Crypto) (cd : Codec) (P : EncPara
 theorem empty_wrapped_key_checks_as_modelled :
     Gen.encryptRefusesEmptyWrappedKey = true ∧ Gen.validateRejectsEmptyWrappedKey = true := by decide
 
+/-- T1: the model may treat the file key handed to `WrapKeyFn` as a value: no function reachable from the
+    statements of `Encrypt` after the call mentions the `fileKey` field, and the two slices cut from the
+    39 random bytes carry no spare capacity (an appending callback cannot reach the nonce prefix). -/
+theorem wrap_argument_not_read_again_as_modelled :
+    Gen.fileKeyReadersAfterWrap = [] ∧ Gen.fileKeySlicesCapLimited = true ∧
+      Gen.randomSplit = (32, 39) := by decide
+
 /-- The layout of the specification document: header of three newline-terminated lines, then
     `⌈|p|/S⌉` sealed segments, each `overhead` bytes longer than its plaintext; none for `p = []`. -/
 theorem spec_layout (c : Crypto) (cd : Codec) (P : EncParams) (pwf : P.WF)
